@@ -126,7 +126,9 @@ class VClock:
         return l.time() if l is not None else self._real.time()
 
     def monotonic(self) -> float:
-        return self.time()
+        # like a real system: the monotonic clock has a different origin than the epoch clock,
+        # so code that mixes the two is exposed
+        return self.time() - 900.0
 
     def __getattr__(self, name: str) -> Any:
         return getattr(self._real, name)
